@@ -724,6 +724,12 @@ pub fn judge_resp(c: &RespCase, obs: &Obs13) -> Vec<Violation> {
                 format!("HTTP/1 head of the re-encoded response ({} B body) carries content-length {cls:?}: {desc}", with.emitted.len())));
         }
         let te = with.h1_head.iter().any(|(k, _)| k == "transfer-encoding");
+        // a re-encoded body must be delimited on a persistent HTTP/1.1 connection: by its (new)
+        // length or by chunked transfer coding — otherwise the client cannot find its end
+        if cls.is_empty() && !te && !with.emitted.is_empty() && with.h1_error.is_none() && !matches!(c.status, 101 | 204 | 304) {
+            out.push(rviol(c, obs, "e", "unframed-body:h1-wire".into(),
+                format!("HTTP/1 head of the re-encoded response ({} B body) carries neither content-length nor transfer-encoding: the body has no end on a keep-alive connection: {desc}", with.emitted.len())));
+        }
         if !cls.is_empty() && te {
             out.push(rviol(c, obs, "d", "content-length-and-transfer-encoding:h1-wire".into(),
                 format!("HTTP/1 head carries both content-length and transfer-encoding: {desc}")));
